@@ -28,6 +28,7 @@ type Contract struct {
 	Props    []string
 	Requires []Clause
 	Ensures  []Clause
+	Dispatch []DispatchRule // see DispatchRule
 	Witness  []Clause // definitions of specification functions (uf/ufptr) over the result of this call, assumed at exit
 	Modifies []string
 	ModGiven bool
@@ -59,6 +60,14 @@ type AtLock struct {
 	Lock  string
 	Items []string
 	Pred  *Clause
+}
+
+// DispatchRule (`dispatch IFACE.METHOD UF`): whenever a value of a concrete type T is boxed into interface IFACE
+// while the function is being proved, the postconditions of T's METHOD (which must be under contract) are assumed
+// for every argument with `result` replaced by UF(boxed value, args...) - i.e. calling the interface method on that
+// value runs T's method (the interface method itself is specified as result == UF(self, args...)).
+type DispatchRule struct {
+	Iface, Method, UF string
 }
 
 type PureFn struct {
@@ -98,7 +107,7 @@ func newContractDB() *ContractDB {
 
 var labelRe = regexp.MustCompile(`^\[([A-Za-z0-9_.:\-]+)\]\s*`)
 
-var clauseKeywords = map[string]bool{"func": true, "pure": true, "lemma": true, "props": true, "requires": true, "ensures": true, "witness": true,
+var clauseKeywords = map[string]bool{"func": true, "pure": true, "lemma": true, "props": true, "requires": true, "ensures": true, "witness": true, "dispatch": true,
 	"modifies": true, "loop": true, "option": true, "assumed": true, "package": true, "transparent": true, "opaque": true,
 	"hyp": true, "concl": true, "end": true, "at": true, "interfere": true, "atlock": true, "ghostmap": true, "constglobal": true, "havoc": true}
 
@@ -401,6 +410,13 @@ func (db *ContractDB) parseContractText(file, text, defaultPkg string) error {
 				al.Items = append(al.Items, strings.TrimSpace(n))
 			}
 			cur.AtLocks = append(cur.AtLocks, al)
+		case "dispatch":
+			f := strings.Fields(c.rest)
+			if cur == nil || len(f) != 2 || !strings.Contains(f[0], ".") {
+				return fmt.Errorf("%s:%d: bad dispatch clause (dispatch IFACE.METHOD UF)", file, c.line)
+			}
+			k := strings.LastIndex(f[0], ".")
+			cur.Dispatch = append(cur.Dispatch, DispatchRule{Iface: f[0][:k], Method: f[0][k+1:], UF: f[1]})
 		case "ghostmap":
 			// ghostmap NAME int|bool|int2|bool2
 			f := strings.Fields(c.rest)
